@@ -72,7 +72,7 @@ func updateTimeBoundsForRow(lo *storage.LookupOptions, cls *semantic.GraphClause
 		if ok && v.T == nil {
 			return nil, fmt.Errorf("invalid time anchor value %v for bound %s", v, cls.PLowerBoundAlias)
 		}
-		if lo.LowerAnchor == nil || (lo.LowerAnchor != nil && v.T.After(*lo.LowerAnchor)) {
+		if ok && (lo.LowerAnchor == nil || v.T.After(*lo.LowerAnchor)) {
 			lo.LowerAnchor = v.T
 		}
 	}
@@ -81,7 +81,7 @@ func updateTimeBoundsForRow(lo *storage.LookupOptions, cls *semantic.GraphClause
 		if ok && v.T == nil {
 			return nil, fmt.Errorf("invalid time anchor value %v for bound %s", v, cls.PUpperBoundAlias)
 		}
-		if lo.UpperAnchor == nil || (lo.UpperAnchor != nil && v.T.After(*lo.UpperAnchor)) {
+		if ok && (lo.UpperAnchor == nil || v.T.Before(*lo.UpperAnchor)) {
 			lo.UpperAnchor = v.T
 		}
 	}
